@@ -232,3 +232,24 @@ Arguments mem {A} eqb x l.
 Arguments bfs {A} eqb succ fuel todo visited.
 Arguments closure {A} eqb succ fuel init.
 Arguments reach {A} succ S0 x.
+
+Section ClosureHead.
+  Variable A : Type.
+  Variable eqb : A -> A -> bool.
+  Variable succ : A -> list A.
+
+  Lemma bfs_prefix fuel : forall todo visited res,
+      bfs eqb succ fuel todo visited = Some res -> exists rest, res = visited ++ rest.
+  Proof.
+    induction fuel as [|f IH]; intros todo visited res Hb.
+    - destruct todo; simpl in Hb; [|discriminate]. inversion Hb. exists []. rewrite app_nil_r. reflexivity.
+    - destruct todo as [|t r]; simpl in Hb.
+      + inversion Hb. exists []. rewrite app_nil_r. reflexivity.
+      + apply IH in Hb. destruct Hb as [rest ->]. rewrite <- app_assoc. eauto.
+  Qed.
+
+  Lemma closure_head fuel x res : closure eqb succ fuel [x] = Some res -> exists rest, res = x :: rest.
+  Proof.
+    unfold closure. simpl. intro H. apply bfs_prefix in H. destruct H as [rest ->]. exists rest. reflexivity.
+  Qed.
+End ClosureHead.
